@@ -105,7 +105,10 @@ func dischargeFunc(sv *Solver, fr *FuncResult, par int) map[string]*oblStatus {
 			defer wg.Done()
 			defer func() { <-sem }()
 			st := &oblStatus{Name: name, Reach: true, Solver: map[string]int{}, Goal: group[0].Goal, Pos: group[0].Pos}
-			for _, o := range group {
+			for gi, o := range group {
+				if gi >= 3 && st.Unsat == 0 {
+					break // a few inconclusive attempts are enough for a vacuity guard
+				}
 				r := sv.solve(o.Name(), pre+o.Script, nil, true)
 				st.Instances++
 				st.Seconds += r.Seconds
